@@ -479,9 +479,22 @@ func CheckMain(id, tier string) int {
 	exit := 0
 	knownPrinted := map[string]bool{}
 	newViol := 0
+	// Report the violations with the fewest deviations first; confirm / report at most maxReport
+	// distinct fingerprints individually (the rest is counted: they cost 5 re-executions each).
+	sort.SliceStable(fps, func(i, j int) bool { return violIdx[fps[i]] < violIdx[fps[j]] })
+	const maxReport = 12
+	reported := 0
 	for _, fp := range fps {
 		v := violOf[fp]
 		idx := violIdx[fp]
+		if k := kf.Match(id, v); k == nil {
+			if reported >= maxReport {
+				agg.Counters["further_distinct_violation_fingerprints_not_individually_confirmed"]++
+				exit = 1
+				continue
+			}
+			reported++
+		}
 		if v.Kind != "process-death" {
 			rep := 0
 			for k := 0; k < 5; k++ {
